@@ -31,6 +31,11 @@ class _Item:
         self.k, self.outcome = k, outcome
 
 
+class _Wire:
+    def __init__(self, item):
+        self.item = item
+
+
 class _NotEmpty:
     def __init__(self, log):
         self.log = log
@@ -48,10 +53,12 @@ class _NotEmpty:
 def check_feed(outcomes: List[int]) -> bool:
     """
     pre: len(outcomes) <= 4
-    pre: all(0 <= o <= 2 for o in outcomes)
+    pre: all(0 <= o <= 4 for o in outcomes)
     post: _
     """
-    outcomes = [_conc(o, 2) for o in outcomes]
+    # outcome of each item: 0 sent; 1 pickling raises PicklingError; 2 send raises struct.error (too large);
+    # 3 pickling raises SystemExit (a __reduce__ calling sys.exit(): not an Exception subclass); 4 send raises OSError
+    outcomes = [_conc(o, 4) for o in outcomes]
     log = Log()
     items = [_Item(k, o) for k, o in enumerate(outcomes)]
     buf = collections.deque(items + [lq._sentinel])
@@ -60,13 +67,20 @@ def check_feed(outcomes: List[int]) -> bool:
     def dumps(obj, reducers=None):
         if obj.outcome == 1:
             raise pickle.PicklingError("cannot pickle")
-        return obj
+        if obj.outcome == 3:
+            raise SystemExit(3)
+        return _Wire(obj)  # the pickled bytes are not the item
 
-    def send_bytes(obj):
+    def send_bytes(wire):
+        if not isinstance(wire, _Wire):
+            raise RuntimeError("harness: something else than the pickled form was sent")
+        obj = wire.item
         if not wlock.held:
             raise RuntimeError("send outside write lock")
         if obj.outcome == 2:
             raise struct.error("too large")
+        if obj.outcome == 4:
+            raise OSError(5, "Input/output error")
         log.add("sent", obj.k)
 
     errs = []
@@ -89,6 +103,10 @@ def check_feed(outcomes: List[int]) -> bool:
         if o.outcome == 1 and not isinstance(e, pickle.PicklingError):
             return False
         if o.outcome == 2 and not isinstance(e, struct.error):
+            return False
+        if o.outcome == 3 and not isinstance(e, SystemExit):
+            return False
+        if o.outcome == 4 and not isinstance(e, OSError):
             return False
     # the slot is released exactly once per failed item, before onerror runs
     if sem != list(range(len(bad))):
@@ -311,16 +329,33 @@ def check_callbacks(kinds: List[int]) -> bool:
     kinds = [_conc(k, 3) for k in kinds]
     ran = []
 
+    import functools
+
+    def body(i, kind, fut):
+        ran.append(i)
+        if kind == 1:
+            raise ValueError(i)
+        if kind == 2:
+            raise SystemExit(i)
+        if kind == 3:
+            raise KeyboardInterrupt(i)
+
+    class _CallableObj:
+        def __init__(self, i, kind):
+            self.i, self.kind = i, kind
+
+        def __call__(self, fut):
+            body(self.i, self.kind, fut)
+
     def mk(i, kind):
-        def cb(fut):
-            ran.append(i)
-            if kind == 1:
-                raise ValueError(i)
-            if kind == 2:
-                raise SystemExit(i)
-            if kind == 3:
-                raise KeyboardInterrupt(i)
-        return cb
+        # callbacks come in every callable shape: plain functions, functools.partial objects (no __name__),
+        # instances with __call__ (what joblib attaches)
+        shape = (i + kind) % 3
+        if shape == 0:
+            return lambda fut: body(i, kind, fut)
+        if shape == 1:
+            return functools.partial(body, i, kind)
+        return _CallableObj(i, kind)
 
     f = Future()
     for i, k in enumerate(kinds):
